@@ -8,10 +8,12 @@ EXE = os.path.join(LEAN_DIR, '.lake', 'build', 'bin', 'driver')
 
 
 def hx(s):
-    return s.encode('utf-8').hex()
+    return s.encode('utf-8').hex() or '-'
 
 
 def unhx(s):
+    if s == '-':
+        return ''
     return bytes.fromhex(s).decode('utf-8')
 
 
